@@ -28,23 +28,33 @@ import os
 def run(ctx):
     import vlib
     q = ctx.quick
+    # the TLC runs are independent: start them together (2 workers each) so that JVM start-up overlaps
+    from concurrent.futures import ThreadPoolExecutor
+    d = 14 if q else 16
+    jobs = [(("planner", "Planner", cfg), dict(workers=2, timeout=1500))
+            for cfg in ["MC_quick.cfg", "MC_deep.cfg", "MC_class.cfg", "MC_noov.cfg"]]
+    jobs.append((("planner", "Planner", "MC_live.cfg"), dict(workers=2, timeout=1500)))
+    jobs.append((("planner", "Planner", "SIM.cfg"), dict(simulate=(30 if q else 800), depth=d + 3, workers=2,
+                                                        constants={"MaxOps": d}, timeout=(240 if q else 1500))))
+    if not q:
+        jobs.append((("planner", "Planner", "MC_big.cfg"), dict(workers=8, timeout=3000)))
+    with ThreadPoolExecutor(len(jobs)) as ex:
+        futs = [ex.submit(ctx.tlc, *a, **kw) for a, kw in jobs]
+        res = [f.result() for f in futs]
     recs = []
-    for cfg in ["MC_quick.cfg", "MC_deep.cfg", "MC_class.cfg", "MC_noov.cfg"]:
-        mc = ctx.tlc("planner", "Planner", cfg, workers=4, timeout=900)
+    for (a, _), mc in zip(jobs[:4], res[:4]):
         ctx.account(mc)
         recs += mc.emitted
-        ctx.log("%s: %d generated / %d distinct, %d states emitted (%.0fs)" % (cfg, mc.generated, mc.distinct, len(mc.emitted), mc.wall))
-    live = ctx.tlc("planner", "Planner", "MC_live.cfg", workers=4, timeout=900)
+        ctx.log("%s: %d generated / %d distinct, %d states emitted (%.0fs)" % (a[2], mc.generated, mc.distinct, len(mc.emitted), mc.wall))
+    live = res[4]
     ctx.account(live)
     ctx.log("MC_live (Converges under fairness): %d distinct (%.0fs)" % (live.distinct, live.wall))
+    sim = res[5]
+    ctx.account(sim)
     if not q:
-        big = ctx.tlc("planner", "Planner", "MC_big.cfg", workers=8, timeout=3000)
+        big = res[6]
         ctx.account(big)
         ctx.log("MC_big: %d generated / %d distinct (%.0fs)" % (big.generated, big.distinct, big.wall))
-    d = 14 if q else 16
-    sim = ctx.tlc("planner", "Planner", "SIM.cfg", simulate=(15 if q else 400), depth=d + 3, workers=4,
-                  constants={"MaxOps": d}, timeout=(120 if q else 1200))
-    ctx.account(sim)
     nw = 0
     for walk in sim.emitted:
         nw += 1
